@@ -1047,6 +1047,20 @@ fn queue_op(p: &mut Pair, cfg: &E2eCfg, t: &[&str]) -> bool {
             }
             true
         }
+        "eburst" => {
+            // k echo requests of the same size queued at once (oracle only): the replies are generated
+            // by the receiver while its fragmenter may still be busy with the previous reply
+            let s = p.a.sockets.get_mut::<icmp::Socket>(p.a.h_icmp);
+            s.set_hop_limit(Some(64));
+            for j in 0..kvi(t, "k") {
+                let data = pattern(kvi(t, "pat") as u8, kvi(t, "len") as usize);
+                let repr = Icmpv6Repr::EchoRequest { ident: cfg.ident, seq_no: (kvi(t, "seq") + j) as u16, data: &data };
+                if let Ok(buf) = s.send(repr.buffer_len(), IpAddress::Ipv6(dst)) {
+                    repr.emit(&Ipv6Address::UNSPECIFIED, &dst, &mut Icmpv6Packet::new_unchecked(buf), &ChecksumCapabilities::ignored());
+                }
+            }
+            true
+        }
         "echo" => {
             let data = pattern(kvi(t, "pat") as u8, kvi(t, "len") as usize);
             let repr = Icmpv6Repr::EchoRequest { ident: cfg.ident, seq_no: kvi(t, "seq") as u16, data: &data };
@@ -1102,7 +1116,7 @@ fn run_op(p: &mut Pair, cfg: &E2eCfg, op: &str, out: Option<&mut dyn Write>) -> 
     }
     let groups = if is154 { print_dgrams(out, "ab", &fa, &mut p.tag0[0]) } else { (0..fa.len()).map(|i| vec![i]).collect() };
     // deliver: the schedule applies to the frames of a single datagram; several datagrams go in order
-    let sched = if t[0] == "burst" { "io" } else { kv(&t, "sched") };
+    let sched = if t[0] == "burst" || t[0] == "eburst" { "io" } else { kv(&t, "sched") };
     for g in &groups {
         for j in schedule(sched, g.len()) {
             p.b.dev.rx.push_back(fa[g[j]].clone());
@@ -1209,6 +1223,10 @@ fn gen_len(rng: &mut Rng, tier: &str) -> usize {
 }
 
 fn gen_e2e_case(rng: &mut Rng, id: String, tier: &str) -> Case {
+    gen_e2e_case_x(rng, id, tier, false)
+}
+
+fn gen_e2e_case_x(rng: &mut Rng, id: String, tier: &str, with_eburst: bool) -> Case {
     // neighbor discovery on 802.15.4 only accepts 8-octet link-layer address options, so two
     // interfaces can exchange unicast traffic only with extended addresses; a short address is
     // exercised with a multicast destination (sent to the broadcast link-layer address)
@@ -1285,6 +1303,13 @@ fn gen_e2e_case(rng: &mut Rng, id: String, tier: &str) -> Case {
         let hx = |v: &Vec<Vec<u8>>| if v.is_empty() { "-".to_string() } else { v.iter().map(|d| hex(d)).collect::<Vec<_>>().join(",") };
         op.push_str(&format!(" ref={} rref={}", hx(&ab), hx(&ba)));
         c.ops.push(op);
+        if with_eburst && !mcast && rng.chance(1, 6) {
+            let mut op = format!("eburst k=2 seq={} len={} pat={}", rng.next() as u16, rng.range(100, 600), rng.next() as u8);
+            let (ab, ba) = ref_op(&mut pip, &ecfg, &op);
+            let hx = |v: &Vec<Vec<u8>>| if v.is_empty() { "-".to_string() } else { v.iter().map(|d| hex(d)).collect::<Vec<_>>().join(",") };
+            op.push_str(&format!(" ref={} rref={}", hx(&ab), hx(&ba)));
+            c.ops.push(op);
+        }
         if rng.chance(1, 12) {
             c.ops.push(format!("wait ms={}", *rng.pick(&[1000i64, 59000, 61000])));
             let w = c.ops.last().unwrap().clone();
@@ -1355,7 +1380,7 @@ fn oracle_e2e_case(c: &Case, fails: &mut Vec<String>, stats: &mut BTreeMap<Strin
         let rrefs = refs_of(&t, "rref");
         // which request datagrams must arrive: all, unless a fragment was withheld or the datagram
         // did not fit the fragmentation buffer (then it is not sent at all)
-        let sched = if t[0] == "burst" { "io" } else { kv(&t, "sched") };
+        let sched = if t[0] == "burst" || t[0] == "eburst" { "io" } else { kv(&t, "sched") };
         let dropped = sched.starts_with("drop") && nfrag_ab > 1;
         let got_ab: Vec<&Vec<u8>> = r.delivered.iter().filter(|(d, _)| d == "ab").map(|(_, x)| x).collect();
         let got_ba: Vec<&Vec<u8>> = r.delivered.iter().filter(|(d, _)| d == "ba").map(|(_, x)| x).collect();
@@ -1387,6 +1412,18 @@ fn oracle_e2e_case(c: &Case, fails: &mut Vec<String>, stats: &mut BTreeMap<Strin
                 "not-delivered-though-all-fragments-arrived",
                 format!("op#{} `{}`: {} of {} datagrams delivered ({} frames)", k, &op[..op.len().min(60)], got_ab.len(), refs.len(), nfrag_ab),
             );
+        }
+        if t[0] == "eburst" {
+            // replies generated back to back: none may be corrupted, and the first one must get through
+            for g in &got_ba {
+                if !rrefs.iter().any(|d| &d == g) {
+                    fail("datagram-differs-from-reference", format!("op#{} eburst reply: got {}", k, hex(g)));
+                }
+            }
+            if got_ab.len() == refs.len() && !rrefs.is_empty() && !got_ba.iter().any(|g| *g == &rrefs[0]) {
+                fail("reply-lost-to-a-later-reply", format!("op#{} `{}`: first of {} replies missing", k, &op[..op.len().min(60)], rrefs.len()));
+            }
+            continue;
         }
         // the reply (echo) likewise
         if got_ab.len() == refs.len() {
@@ -1605,10 +1642,20 @@ fn main() {
             let mut stats = BTreeMap::new();
             let cases: Vec<Case> = if sub == "oracle" {
                 let mut rng = Rng::new(seed ^ 0x0e2e);
-                (0..n).map(|i| oracle_case_from(gen_e2e_case(&mut rng, format!("o{}-{}", seed, i), &_tier))).collect()
+                (0..n).map(|i| oracle_case_from(gen_e2e_case_x(&mut rng, format!("o{}-{}", seed, i), &_tier, true))).collect()
             } else {
                 stdin_cases().into_iter().filter(|c| c.get("s") == Some("e2e")).collect()
             };
+            if sub == "oracle" {
+                // datagrams without a 6LoWPAN encoding must be dropped, not panic: MLD report (join a group)
+                let ll = Ieee802154Address::Extended([2, 0, 0, 0, 0, 0, 0, 9]);
+                let mut nd = mk_node(Medium::Ieee802154, Some(ll), &[ll_link_local(&ll)], None, 127, 3);
+                let _ = nd.iface.join_multicast_group(Ipv6Address::new(0xff02, 0, 0, 0, 0, 0, 1, 2));
+                if pump(&mut nd).is_err() {
+                    fails.push("poll-panics-sending-unencodable-datagram :: join_multicast_group on an 802.15.4 interface (MLD report)".into());
+                }
+                *stats.entry("probe_mld".into()).or_default() += 1;
+            }
             for c in &cases {
                 let before = fails.len();
                 oracle_e2e_case(c, &mut fails, &mut stats);
